@@ -139,6 +139,10 @@ pub const CARRIERS: &[&str] = &[
     // a second literal nested two and more levels below the statement that holds the first
     "begin\n  Query.Text := {}.ForEachLine(procedure(const Line: string) begin if Line <> \'\' then Log.Add({}); end);\nend;\n",
     "begin\n  Run({}, procedure\n    begin\n      while A do\n        Foo(procedure\n          begin\n            X := {};\n          end);\n    end);\nend;\n",
+    // statements split by conditional directives (their lines share the tokens after the directive),
+    // after an earlier statement whose literal may need re-indenting
+    "begin\n  S := {};\n  X :=\n{$IFDEF A}\n      {}\n{$ELSE}\n{$ENDIF}\n      + B;\nend;\n",
+    "begin\n  S := {};\n  X := Foo(\n{$IFDEF A}\n    {},\n{$ELSE}\n    Other,\n{$ENDIF}\n    Tail) + C;\n  Y := {};\nend;\n",
 ];
 
 /// expand a carrier with literals; returns (program text, byte offset of each literal)
